@@ -318,3 +318,32 @@ Print Assumptions c15_bv_to_bool_closed.
 Theorem c15_str_replace_all_closed : ltac:(let t := type of rw_str_replace_all_wf in exact t).
 Proof. exact rw_str_replace_all_wf. Qed.
 Print Assumptions c15_str_replace_all_closed.
+
+(* the last 14 mutators (Model/OracleRw.v, Model/GlobalRw.v): closure relative to well-formed oracle values, and FRESHNESS of the
+   declarations that the three declaring mutators introduce: (declare-const n sort) with n not declared, pairwise distinct,
+   and used in the replacement (statements in Props/OracleRwProps.v, Props/GlobalRwProps.v) *)
+From DD Require Import Props.OracleRwProps Props.GlobalRwProps.
+Theorem c15_constants_closed : ltac:(let t := type of rw_constants_wf in exact t).
+Proof. exact rw_constants_wf. Qed.
+Print Assumptions c15_constants_closed.
+Theorem c15_replace_by_var_closed : ltac:(let t := type of rw_replace_by_var_wf in exact t).
+Proof. exact rw_replace_by_var_wf. Qed.
+Print Assumptions c15_replace_by_var_closed.
+Theorem c15_str_simp_const_is_string_literal : ltac:(let t := type of rw_str_simp_const_strlit in exact t).
+Proof. exact rw_str_simp_const_strlit. Qed.
+Print Assumptions c15_str_simp_const_is_string_literal.
+Theorem c15_fresh_var_wf : ltac:(let t := type of rw_fresh_var_wf in exact t).
+Proof. exact rw_fresh_var_wf. Qed.
+Print Assumptions c15_fresh_var_wf.
+Theorem c15_fresh_var_freshness : ltac:(let t := type of rw_fresh_var_freshness in exact t).
+Proof. exact rw_fresh_var_freshness. Qed.
+Print Assumptions c15_fresh_var_freshness.
+Theorem c15_bv_reduce_bw_freshness : ltac:(let t := type of rw_bv_reduce_bw_freshness in exact t).
+Proof. exact rw_bv_reduce_bw_freshness. Qed.
+Print Assumptions c15_bv_reduce_bw_freshness.
+Theorem c15_str_contains_freshness : ltac:(let t := type of rw_str_contains_freshness in exact t).
+Proof. exact rw_str_contains_freshness. Qed.
+Print Assumptions c15_str_contains_freshness.
+Theorem c15_elim_var_wf : ltac:(let t := type of rw_elim_var_wf in exact t).
+Proof. exact rw_elim_var_wf. Qed.
+Print Assumptions c15_elim_var_wf.
